@@ -40,10 +40,11 @@ type pathStep struct {
 type State struct {
 	heaps   map[string]string
 	nextRef string
+	epoch   int // bumped when an open-world call havocs every heap: heaps not yet mentioned get a fresh base version
 }
 
 func (s *State) clone() *State {
-	n := &State{heaps: map[string]string{}, nextRef: s.nextRef}
+	n := &State{heaps: map[string]string{}, nextRef: s.nextRef, epoch: s.epoch}
 	for k, v := range s.heaps {
 		n.heaps[k] = v
 	}
@@ -243,6 +244,9 @@ func (g *VCGen) val(v ssa.Value) SpecVal {
 	if sv, ok := g.vals[v]; ok {
 		return sv
 	}
+	if ad, ok := g.addrs[v]; ok && ad.Kind == "obj" && len(ad.Path) == 0 {
+		return SpecVal{ad.Ref, "Int", v.Type()}
+	}
 	switch x := v.(type) {
 	case *ssa.Const:
 		return g.constVal(x)
@@ -321,12 +325,15 @@ func (g *VCGen) typeFact(term string, t types.Type) string {
 			bound = fmt.Sprintf(" (<= (+ (s.off %s) (s.cap %s)) 281474976710656)", term, term)
 		}
 		return fmt.Sprintf("(and (<= 0 (s.off %s)) (<= 0 (s.len %s)) (<= (s.len %s) (s.cap %s)) (>= (s.base %s) 0) (=> (= (s.base %s) 0) (= (s.cap %s) 0))%s)", term, term, term, term, term, term, term, bound)
-	case *types.Pointer, *types.Map, *types.Chan:
-		if g.so.sortOf(t) == "Int" {
-			return fmt.Sprintf("(>= %s 0)", term)
-		}
+	case *types.Map, *types.Chan:
+		return fmt.Sprintf("(>= %s 0)", term)
 	case *types.Interface:
-		return fmt.Sprintf("(and (>= (if.tag %s) 0) (>= (if.ref %s) 0) (=> (= (if.tag %s) 0) (= (if.ref %s) 0)))", term, term, term, term)
+		extra := ""
+		if n, ok := t.(*types.Named); ok && n.Obj().Pkg() != nil && g.eng.contracts.ClosedIfaces[n.Obj().Pkg().Path()+"."+n.Obj().Name()] {
+			// closed interface: values only come from the package's own conversions, which convert non-nil pointers (checked at each MakeInterface)
+			extra = fmt.Sprintf(" (=> (not (= (if.tag %s) 0)) (not (= (if.ref %s) 0)))", term, term)
+		}
+		return fmt.Sprintf("(and (>= (if.tag %s) 0) (=> (= (if.tag %s) 0) (= (if.ref %s) 0))%s)", term, term, term, extra)
 	}
 	return g.specialFact(term, t)
 }
@@ -410,10 +417,14 @@ func (g *VCGen) heapTerm(st *State, heap string) string {
 	if t, ok := st.heaps[heap]; ok {
 		return t
 	}
-	// first use: entry version is the declared heap constant
-	base := heap + "@0"
-	if !g.so.done["heapdecl:"+heap] {
-		g.so.done["heapdecl:"+heap] = true
+	// first use: entry version is the declared heap constant (per havoc epoch; immutable heaps have a single version)
+	ep := st.epoch
+	if g.immutableHeap(heap) {
+		ep = 0
+	}
+	base := fmt.Sprintf("%s@%d", heap, ep)
+	if !g.so.done["heapdecl:"+base] {
+		g.so.done["heapdecl:"+base] = true
 		g.decls = append(g.decls, fmt.Sprintf("(declare-const %s %s)", base, g.so.heaps[heap]))
 	}
 	return base
@@ -541,6 +552,9 @@ func (g *VCGen) loopPos(h *ssa.BasicBlock) token.Pos {
 		for _, in := range b.Instrs {
 			if _, isDbg := in.(*ssa.DebugRef); isDbg {
 				continue
+			}
+			if _, isPhi := in.(*ssa.Phi); isPhi {
+				continue // a phi carries the position of the variable's declaration, which may precede the loop
 			}
 			if p := in.Pos(); p.IsValid() && p < best {
 				best = p
